@@ -182,11 +182,22 @@ def extract(tree):
     c["choiceValidatesFirst"] = False
     if len(loops) == 3:
         val = ch[loops[0]:loops[1]]
-        m = re.match(r"for\s*\([^)]*\)\s*\{\s*" + _ws("if (janet_indexed_view(argv[i], &data, &len) && len == 2) { janet_getchannel(data, 0); } "
-                                                   "else { janet_getchannel(argv, i); } }"), val, re.S)
-        if not m or re.search(r"janet_chan_lock|janet_chan_unlock|push_with_lock|pop_with_lock|janet_q_|->items|->limit|->closed|return|janet_await", val[:m.end()]) \
-                or re.search(r"\S", re.sub(r"\s+", "", val[m.end():])):
+        m = re.match(r"for\s*\([^)]*\)\s*", val)
+        if not m or val[m.end()] != "{":
+            raise ExtractError("ev.c: cfun_channel_choice: validation pass: loop body not found")
+        end = csrc.match_brace(val, m.end())
+        body = val[m.end():end]
+        # structural purity: it calls only type checks / the pack probe (no-ops on an unthreaded channel, checked below),
+        # takes no lock, touches no queue, writes no field, never returns and never suspends
+        called = set(re.findall(r"\b([A-Za-z_]\w*)\s*\(", body)) - {"if", "for", "while", "switch", "sizeof"}
+        allowed = {"janet_indexed_view", "janet_getchannel", "janet_chan_pack", "janet_chan_unpack", "janet_panicf", "janet_panic"}
+        if not called <= allowed or "janet_getchannel" not in called:
+            raise ExtractError("ev.c: cfun_channel_choice: the loop before the immediate pass is not a pure validation pass (calls %s)"
+                               % ", ".join(sorted(called - allowed)))
+        if re.search(r"->\s*\w+\s*(=[^=]|\+\+|--|[-+|&]=)|\breturn\b|\bgoto\b", body) or val[end:].strip():
             raise ExtractError("ev.c: cfun_channel_choice: the loop before the immediate pass is not a pure validation pass")
+        for fn in sorted(called & {"janet_chan_pack", "janet_chan_unpack"}):
+            _need(r"^\{\s*" + _ws("if (!janet_chan_is_threaded(chan)) return 0;"), csrc.func_body(src, fn), fn + ": no-op on an unthreaded channel")
         c["choiceValidatesFirst"] = True
         loops = loops[1:]
     if len(loops) != 2:
@@ -230,6 +241,106 @@ def extract(tree):
     return c
 
 
+# ---------------------------------------------------------------------------------------------- mark functions
+_BOUND = {"0": 0, "head": 1, "tail": 2, "capacity": 3}
+
+
+def _mark_walk(body, qname, what, marked):
+    """Structure of the walk a mark function makes over one JanetQueue `qname` (a pointer variable):
+         if (q->head <= q->tail) { for (int32_t i = LO; i < HI; i++) MARK; ... } else { for ...; for ...; }
+       or an unconditional run of such loops whose bounds may be `(q->head <= q->tail) ? A : B` (through a local).
+       -> (straight, wrapped): lists of (lo, hi) bound codes 0 = constant 0, 1 = head, 2 = tail, 3 = capacity.
+       Every loop must mark `marked` (a regex over the loop body with the index `i`), step by `i++` and test `i < HI`."""
+    q = re.escape(qname)
+    fld = r"(?:%s\s*->\s*)(head|tail|capacity)" % q
+
+    def bound(txt, locals_):
+        txt = txt.strip()
+        while txt.startswith("(") and txt.endswith(")") and csrc_balanced(txt[1:-1]):
+            txt = txt[1:-1].strip()
+        if txt == "0":
+            return (0, 0)
+        m = re.fullmatch(fld, txt)
+        if m:
+            return (_BOUND[m.group(1)],) * 2
+        if txt in locals_:
+            return locals_[txt]
+        m = re.fullmatch(r"\(?\s*%s\s*->\s*head\s*<=\s*%s\s*->\s*tail\s*\)?\s*\?\s*(.+?)\s*:\s*(.+)" % (q, q), txt, re.S)
+        if m:
+            return (bound(m.group(1), locals_)[0], bound(m.group(2), locals_)[1])
+        raise ExtractError("ev.c: %s: loop bound %r not recognised" % (what, txt))
+
+    def loops(block, locals_, branch):
+        out, pos = [], 0
+        for m in re.finditer(r"for\s*\(\s*int32_t\s+(\w+)\s*=\s*([^;]+);\s*(\w+)\s*<\s*([^;]+);\s*(\w+)\s*\+\+\s*\)\s*", block):
+            if block[pos:m.start()].strip(" \t\n;{}"):
+                raise ExtractError("ev.c: %s: statement %r between the mark loops not recognised" % (what, block[pos:m.start()].strip()[:60]))
+            i = m.group(1)
+            if m.group(3) != i or m.group(5) != i:
+                raise ExtractError("ev.c: %s: mark loop does not step its own index" % what)
+            rest = block[m.end():]
+            stmt_end = csrc.match_brace(rest, 0) if rest.startswith("{") else rest.index(";") + 1
+            stmt = rest[:stmt_end]
+            if not re.fullmatch(r"\{?\s*" + marked.replace("IDX", re.escape(i)) + r"\s*;\s*\}?", stmt.strip(), re.S):
+                raise ExtractError("ev.c: %s: body of a mark loop not recognised: %r" % (what, stmt.strip()[:80]))
+            out.append((bound(m.group(2), locals_)[branch], bound(m.group(4), locals_)[branch]))
+            pos = m.end() + stmt_end
+        if block[pos:].strip(" \t\n;{}"):
+            raise ExtractError("ev.c: %s: statement %r after the mark loops not recognised" % (what, block[pos:].strip()[:60]))
+        return out
+
+    # locals that name a bound:  int32_t end = <bound expr>;
+    locals_ = {}
+    for m in re.finditer(r"int32_t\s+(\w+)\s*=\s*([^;]*(?:%s)[^;]*);" % fld, body):
+        if body[:m.start()].rstrip().endswith("("):
+            continue      # the index declaration of a for loop
+        locals_[m.group(1)] = bound(m.group(2), locals_)
+        body = body[:m.start()] + " " * (m.end() - m.start()) + body[m.end():]
+    m = re.search(r"if\s*\(\s*%s\s*->\s*head\s*<=\s*%s\s*->\s*tail\s*\)\s*\{" % (q, q), body)
+    if m:
+        e1 = csrc.match_brace(body, m.end() - 1)
+        m2 = re.match(r"\s*else\s*\{", body[e1:])
+        if not m2:
+            raise ExtractError("ev.c: %s: `if (head <= tail)` without else branch" % what)
+        e2 = csrc.match_brace(body, e1 + m2.end() - 1)
+        if body[e2:].strip(" \t\n;}") not in ("", "return 0"):
+            raise ExtractError("ev.c: %s: statements after the walk not recognised" % what)
+        return loops(body[m.end():e1 - 1], locals_, 0), loops(body[e1 + m2.end():e2 - 1], locals_, 1)
+    k = body.find("for")
+    if k < 0:
+        raise ExtractError("ev.c: %s: no mark loop found" % what)
+    tail = re.sub(r"return\s+0\s*;\s*\}\s*$", "", body[k:].rstrip())
+    tail = re.sub(r"\}\s*$", "", tail) if tail.count("}") > tail.count("{") else tail
+    return loops(tail, locals_, 0), loops(tail, locals_, 1)
+
+
+def csrc_balanced(txt):
+    d = 0
+    for ch in txt:
+        d += ch == "("
+        d -= ch == ")"
+        if d < 0:
+            return False
+    return d == 0
+
+
+def extract_marks(src):
+    """janet_chanat_mark_fq (fibers of a pending queue) and the item walk of janet_chanat_mark"""
+    fq = csrc.func_body(src, "janet_chanat_mark_fq")
+    m = _need(r"^\{\s*JanetChannelPending\s*\*\s*(\w+)\s*=\s*fq\s*->\s*data\s*;", fq, "janet_chanat_mark_fq: view of the pending entries")
+    pend = _mark_walk(fq[m.end():], "fq", "janet_chanat_mark_fq",
+                      r"janet_mark\s*\(\s*janet_wrap_fiber\s*\(\s*%s\s*\[\s*IDX\s*\]\s*\.\s*fiber\s*\)\s*\)" % re.escape(m.group(1)))
+    mk = csrc.func_body(src, "janet_chanat_mark")
+    m = _need(r"^\{\s*\(void\)\s*s\s*;\s*JanetChannel\s*\*\s*chan\s*=\s*p\s*;\s*"
+              + _ws("janet_chanat_mark_fq(&chan->read_pending); janet_chanat_mark_fq(&chan->write_pending); "
+                    "JanetQueue *items = &chan->items; Janet *data = chan->items.data;"), mk,
+              "janet_chanat_mark: both pending queues marked, then the items ring")
+    items = _mark_walk(mk[m.end():], "items", "janet_chanat_mark", r"janet_mark\s*\(\s*data\s*\[\s*IDX\s*\]\s*\)")
+    if not re.search(r"janet_chanat_mark\s*,", src):
+        raise ExtractError("ev.c: janet_chanat_mark is not the gcmark callback of janet_channel_type")
+    return {"chanMarkPending": pend, "chanMarkItems": items}
+
+
 ORDER = ["pushBlocksStrict", "choiceReadyStrict", "choiceGiveSeesReader", "popSkipsStaleWriter", "closeChecksSched", "resumeBumps",
          "supervisorSkipsClosed"]
 
@@ -249,6 +360,15 @@ def render(tree):
     for k in ORDER:
         out.append("/-- %s -/" % doc[k])
         out.append("abbrev %s : Bool := %s" % (k, "true" if c[k] else "false"))
+    marks = extract_marks(csrc.strip_comments(csrc.read(tree, "src/core/ev.c")))
+    out.append("/-! walks of the channel's gcmark callback over a JanetQueue: `if (head <= tail) {straight} else {wrapped}`, each a list of\n"
+               "    loops `for (i = lo; i < hi; i++) janet_mark(slot i)`; bound codes 0 = constant 0, 1 = head, 2 = tail, 3 = capacity -/")
+    for name, doc in (("chanMarkItems", "janet_chanat_mark: the items ring"), ("chanMarkPending", "janet_chanat_mark_fq: the fibers of a pending queue")):
+        st, wr = marks[name]
+        out.append("/-- %s, branch head <= tail -/" % doc)
+        out.append("abbrev %sStraight : List (Nat × Nat) := [%s]" % (name, ", ".join("(%d, %d)" % x for x in st)))
+        out.append("/-- %s, branch head > tail -/" % doc)
+        out.append("abbrev %sWrapped : List (Nat × Nat) := [%s]" % (name, ", ".join("(%d, %d)" % x for x in wr)))
     out.append("/-- JANET_MAX_Q_CAPACITY -/")
     out.append("abbrev maxQCapacity : Nat := %d" % c["maxQCapacity"])
     out.append("\nend JanetModel.Gen.Ev\n")
